@@ -38,6 +38,9 @@ pub(crate) struct RepSocket {
   /// separated by awaits, so without it two racing recv() calls could both succeed and the second
   /// would overwrite the first request's return address.
   op_lock: tokio::sync::Mutex<()>,
+  /// Frames of the current request that recv() has not handed out yet (recv() returns one frame
+  /// per call; the ingress engine delivers whole messages).
+  request_rest: ParkingLotMutex<Option<FrameBatch>>,
   pipe_read_id_to_endpoint_uri: RwLock<HashMap<usize, String>>,
 }
 
@@ -50,6 +53,7 @@ impl RepSocket {
       pending_pipe_senders: ParkingLotMutex::new(HashMap::new()),
       state: ParkingLotMutex::new(RepState::ReadyToReceive),
       op_lock: tokio::sync::Mutex::new(()),
+      request_rest: ParkingLotMutex::new(None),
       pipe_read_id_to_endpoint_uri: RwLock::new(HashMap::new()),
     }
   }
@@ -149,6 +153,20 @@ impl ISocket for RepSocket {
       return Err(ZmqError::InvalidState("Socket is closing".into()));
     }
     let _op = self.op_lock.lock().await;
+    // The request being read frame by frame comes first.
+    {
+      let mut rest_guard = self.request_rest.lock();
+      if let Some(rest) = rest_guard.as_mut() {
+        if !rest.is_empty() {
+          let frame = rest.remove(0);
+          if rest.is_empty() {
+            *rest_guard = None;
+          }
+          return Ok(frame);
+        }
+        *rest_guard = None;
+      }
+    }
     {
       let guard = self.state.lock();
       if !matches!(*guard, RepState::ReadyToReceive) {
@@ -166,7 +184,11 @@ impl ISocket for RepSocket {
     if payload_frames.is_empty() {
       Ok(Msg::new())
     } else {
-      Ok(payload_frames.remove(0))
+      let first = payload_frames.remove(0);
+      if !payload_frames.is_empty() {
+        *self.request_rest.lock() = Some(payload_frames);
+      }
+      Ok(first)
     }
   }
 
@@ -183,7 +205,11 @@ impl ISocket for RepSocket {
     let peer_to_reply_to = {
       let mut guard = self.state.lock();
       match std::mem::replace(&mut *guard, RepState::ReadyToReceive) {
-        RepState::ReceivedRequest(info) => info,
+        RepState::ReceivedRequest(info) => {
+          // frames of the request that the application chose not to read go with it
+          *self.request_rest.lock() = None;
+          info
+        }
         RepState::ReadyToReceive => {
           *guard = RepState::ReadyToReceive;
           return Err(ZmqError::InvalidState("REP socket must recv() a request before sending a reply"));
@@ -243,6 +269,12 @@ impl ISocket for RepSocket {
       return Err(ZmqError::InvalidState("Socket is closing".into()));
     }
     let _op = self.op_lock.lock().await;
+    // The rest of a request that recv() started comes first.
+    if let Some(rest) = self.request_rest.lock().take() {
+      if !rest.is_empty() {
+        return Ok(rest);
+      }
+    }
     {
       let guard = self.state.lock();
       if !matches!(*guard, RepState::ReadyToReceive) {
